@@ -163,3 +163,288 @@ def typed_eq(a, b) -> bool:
 
 def dumps(v) -> str:
     return json.dumps(v, sort_keys=True, default=str)
+
+
+# ------------------------------------------------------------------ overlay trees (C06 / C08)
+#
+# A layer (inline resource, ResourceTemplate, inline overlay, overlayRef ValueFunction `return`,
+# create.overlay) is written as a JSON-serialisable tree
+#     {"n": {key: tree}}            a map written in the definition
+#     {"l": value, "via": bool}     a leaf: a literal, or (via) an `=inputs.<k>` expression giving `value`
+# A literal non-empty map is always a node (that is how `_overlay_indexer` reads it).
+
+def node(**kw):
+    return {"n": dict(kw)}
+
+
+def leaf(value, via=False):
+    if isinstance(value, dict) and value and not via:
+        return {"n": {k: leaf(v) for k, v in value.items()}}
+    return {"l": value, "via": bool(via)}
+
+
+def tree_merge(a, b):
+    """b laid over a (definition-level merge of two trees: nodes merge, anything else replaces)"""
+    if a is not None and "n" in a and "n" in b:
+        out = dict(a["n"])
+        for k, v in b["n"].items():
+            out[k] = tree_merge(out.get(k), v)
+        return {"n": out}
+    return copy.deepcopy(b)
+
+
+def tree_value(t):
+    """the plain value of a tree (what a template evaluates to)"""
+    if "n" in t:
+        return {k: tree_value(v) for k, v in t["n"].items()}
+    return copy.deepcopy(t["l"])
+
+
+def tree_spec(t, inputs: dict, tag: str):
+    """the tree as written in a real spec; via-leaves become `=inputs.<k>` and fill `inputs`"""
+    if "n" in t:
+        return {k: tree_spec(v, inputs, f"{tag}_{k.replace('-', '_').replace('.', '_').replace('/', '_')}")
+                for k, v in t["n"].items()}
+    if t.get("via"):
+        key = f"v_{tag}"
+        inputs[key] = copy.deepcopy(t["l"])
+        return f"=inputs.{key}"
+    return copy.deepcopy(t["l"])
+
+
+def tree_ov(t):
+    """the tree as the model's `Ov` on the wire"""
+    from common import to_wire
+
+    if "n" in t and t["n"]:
+        return {"node": [[k, tree_ov(v)] for k, v in t["n"].items()]}
+    if "n" in t:
+        return {"leaf": to_wire({})}
+    return {"leaf": to_wire(t["l"])}
+
+
+def tree_is_empty(t) -> bool:
+    return "n" in t and not t["n"]
+
+
+# ------------------------------------------------------------------ programs
+
+LAYERS = ("template", "ov0", "ov1", "ovRef", "create")
+
+EVIL_META = {"name": "evil-name", "namespace": "evil-ns", "labels": {"x": "y"}}
+EDITS = {
+    "verkind": lambda via: node(apiVersion=leaf("evil/v9", via), kind=leaf("EvilKind", via)),
+    "name": lambda via: node(metadata=node(name=leaf("evil-name", via))),
+    "namespace": lambda via: node(metadata=node(namespace=leaf("evil-ns", via))),
+    "metaStr": lambda via: node(metadata=leaf("scalar", via)),
+    "metaInt": lambda via: node(metadata=leaf(7, via)),
+    "metaList": lambda via: node(metadata=leaf(["a", {"name": "evil-name"}], via)),
+    "metaNull": lambda via: node(metadata=leaf(None, via)),
+    "metaMap": lambda via: node(metadata=leaf(EVIL_META, via)),
+    "verkindNonStr": lambda via: node(apiVersion=leaf(3, via), kind=leaf({"k": 1}, via)),
+}
+
+
+def base_layer(layer: str, prog: dict):
+    if layer == "template":
+        t = node(spec=node(a=leaf(1), b=leaf("x")), metadata=node(labels=node(app=leaf("t"))))
+        if prog.get("tmplForm") == "ref":   # a ResourceTemplate must name some apiVersion / kind
+            kind, _ = kind_for(prog["prefix"], prog["namespaced"])
+            t = tree_merge(t, node(apiVersion=leaf(API_VERSION), kind=leaf(kind)))
+        return t
+    return node(spec=node(**{f"from_{layer}": leaf(True)}))
+
+
+def layer_tree(layer: str, prog: dict):
+    """benign content of the layer + its adversarial edits (in order); None = the layer is not there"""
+    edits = [e for e in prog["edits"] if e["layer"] == layer]
+    if layer != "template" and not edits and layer not in prog.get("benign", []):
+        return None
+    t = base_layer(layer, prog)
+    if layer in prog.get("extra", {}):
+        t = tree_merge(t, prog["extra"][layer])
+    for e in edits:
+        via = e.get("via", False) and not (layer == "template" and prog.get("tmplForm") == "ref")
+        t = tree_merge(t, EDITS[e["kind"]](via))
+    return t
+
+
+def build(prog: dict) -> dict:
+    """program -> real spec + cache content + inputs, and the model's request"""
+    from common import to_wire
+
+    prefix, namespaced = prog["prefix"], prog["namespaced"]
+    kind, plural = kind_for(prefix, namespaced)
+    inputs: dict = {}
+    name, ns = prog.get("name", NAME), prog.get("apiNs", NS if namespaced else None)
+    api = {"apiVersion": API_VERSION, "kind": kind, "plural": plural, "namespaced": namespaced}
+    if prog.get("nameVia"):
+        inputs["objName"] = name
+        api["name"] = "=inputs.objName"
+    else:
+        api["name"] = name
+    if ns is not None:
+        if prog.get("nsVia"):
+            inputs["objNs"] = ns
+            api["namespace"] = "=inputs.objNs"
+        else:
+            api["namespace"] = ns
+    flags = prog.get("flags", {})
+    api["owned"] = flags.get("owned", True)
+    for k in ("readonly", "deleteIfExists"):
+        if flags.get(k):
+            api[k] = True
+    spec: dict = {"apiConfig": api}
+    templates, vfs = {}, {}
+    # template
+    ttree = layer_tree("template", prog)
+    if prog.get("tmplForm") == "ref":
+        templates["tmpl"] = {"template": tree_spec(ttree, {}, "t")}
+        spec["resourceTemplateRef"] = {"name": "tmpl"}
+    else:
+        spec["resource"] = tree_spec(ttree, inputs, "t")
+    tmpl_value = tree_value(ttree)
+    # overlays
+    steps_real, steps_model = [], []
+    for layer in ("ov0", "ov1", "ovRef"):
+        t = layer_tree(layer, prog)
+        if t is None or tree_is_empty(t):
+            continue
+        entry: dict = {}
+        if layer == "ovRef":
+            vf_inputs: dict = {}
+            vfs["vf"] = {"return": tree_spec(t, vf_inputs, layer)}
+            entry["overlayRef"] = {"kind": "ValueFunction", "name": "vf"}
+            if vf_inputs:
+                entry["inputs"] = {k: f"=inputs.{k}" for k in vf_inputs}
+                inputs.update(vf_inputs)
+        else:
+            entry["overlay"] = tree_spec(t, inputs, layer)
+        skipped = layer in prog.get("skip", [])
+        if layer in prog.get("skip", []) or layer in prog.get("noskip", []):
+            inputs[f"skip_{layer}"] = skipped
+            entry["skipIf"] = f"=inputs.skip_{layer}"
+        steps_real.append(entry)
+        steps_model.append({"skip": True} if skipped else {"ov": tree_ov(t)})
+    if steps_real:
+        spec["overlays"] = steps_real
+    # create
+    ctree = layer_tree("create", prog)
+    create: dict = {}
+    create_model = None
+    if ctree is not None and not tree_is_empty(ctree):
+        create["overlay"] = tree_spec(ctree, inputs, "create")
+        create_model = tree_ov(ctree)
+    if not flags.get("createEnabled", True):
+        create = {"enabled": False}
+        create_model = None
+    if create:
+        spec["create"] = create
+    pol = flags.get("policy", "patch")
+    if pol != "patch":
+        spec["update"] = {pol: {}}
+    owner_ns = prog.get("ownerNs", NS)
+    owner_ref = prog.get("ownerRef", OWNER_REF)
+    stored = prog.get("stored")
+    objects = {}
+    if stored is not None:
+        objects[(API_VERSION, plural, ns if namespaced else None, name)] = stored
+    model = {"op": "run", "api": {"ver": API_VERSION, "kind": kind, "plural": plural, "namespaced": namespaced},
+             "name": name, "ns": ns,
+             "flags": {"readonly": bool(flags.get("readonly")), "owned": bool(flags.get("owned", True)),
+                       "createEnabled": bool(flags.get("createEnabled", True)),
+                       "deleteIfExists": bool(flags.get("deleteIfExists")), "policy": pol},
+             "tmpl": to_wire(tmpl_value), "steps": steps_model, "createOv": create_model,
+             "owner": {"ns": owner_ns, "ref": to_wire(owner_ref)},
+             "stored": None if stored is None else to_wire(stored), "defNs": "default", "precond": True}
+    return {"spec": spec, "templates": templates, "vfs": vfs, "inputs": inputs, "objects": objects,
+            "owner": (owner_ns, owner_ref), "model": model, "kind": kind, "plural": plural, "name": name, "ns": ns}
+
+
+def run_program(prog: dict) -> dict:
+    b = build(prog)
+    obs = reconcile(b["spec"], objects=b["objects"], inputs=b["inputs"], owner=b["owner"],
+                    templates=b["templates"], value_functions=b["vfs"])
+    b["obs"] = obs
+    return b
+
+
+def loaded_raw(stored: dict, namespaced: bool, ns) -> dict:
+    """what koreo sees as `api_resource.raw` for a stored object"""
+    raw = copy.deepcopy(stored)
+    if namespaced and ns is not None and isinstance(raw.get("metadata"), dict):
+        raw["metadata"]["namespace"] = ns
+    return raw
+
+
+def comparator_says(expected, stored, namespaced, ns):
+    """the real comparator's verdict on (model's target, live object); None when it raises"""
+    from koreo.resource_function.reconcile import _extract_last_applied
+    from koreo.resource_function.reconcile.validate import validate_match
+
+    raw = loaded_raw(stored, namespaced, ns)
+    try:
+        return bool(validate_match(target=copy.deepcopy(expected), actual=raw,
+                                   last_applied_value=_extract_last_applied(raw)).match)
+    except Exception:
+        return None
+
+
+def impl_request(obs: dict):
+    """the one mutating request of the run as {method, plural, name, nsArg, body}; None / 'multiple'"""
+    muts = [e for e in log_view(obs["cluster"]) if e["method"] != "GET"]
+    if not muts:
+        return None
+    if len(muts) > 1:
+        return "multiple"
+    return muts[0]
+
+
+# ------------------------------------------------------------------ directive-laden values (C08)
+
+WORDS = ("a", "b", "items", "ports", "env", "labels", "rules", "cfg")
+SCALARS = (0, 1, 7, -3, True, False, None, "x", "y z", "v1", "")
+
+
+def dirty_value(r, depth=0, force_directive=False):
+    """a JSON value with Koreo directive keys nested in maps at any depth and inside list items
+    (directive values have the shape the comparator expects)"""
+    roll = r.random()
+    if depth >= 3 or (roll < 0.3 and not force_directive):
+        return r.choice(SCALARS)
+    if roll < 0.5 and not force_directive:
+        return [dirty_value(r, depth + 1) for _ in range(r.choice((0, 1, 2, 3)))]
+    keys = r.sample(WORDS, r.choice((1, 2, 2, 3)))
+    out = {}
+    for k in keys:
+        out[k] = dirty_value(r, depth + 1)
+    lists = [k for k, v in out.items() if isinstance(v, list)]
+    if force_directive or r.random() < 0.45:
+        out[DIRECTIVES[0]] = lists[:2] if lists and r.random() < 0.8 else [r.choice(WORDS)]
+    if r.random() < 0.25:
+        out[DIRECTIVES[1]] = {(lists[0] if lists else r.choice(WORDS)): ["name"]}
+    if r.random() < 0.2:
+        out[DIRECTIVES[2]] = [r.choice(keys)]
+    if r.random() < 0.3:   # keep insertion order varied: a directive first
+        out = dict(sorted(out.items(), key=lambda kv: not kv[0].startswith("x-koreo")))
+    return out
+
+
+def value_tree(r, v, via_rate=0.25):
+    """how a value is written into a layer: maps as nodes (merged) or — through inputs — as one leaf"""
+    if isinstance(v, dict) and v:
+        if r.random() < via_rate:
+            return leaf(v, via=True)
+        return {"n": {k: value_tree(r, x, via_rate) for k, x in v.items()}}
+    return leaf(v, via=(r.random() < via_rate and not isinstance(v, dict)))
+
+
+def merge_patch(target, patch):
+    return cl.merge_patch(target, patch)
+
+
+def owner_uids(obj) -> list:
+    refs = get_path(obj, "metadata", "ownerReferences")
+    if not isinstance(refs, list):
+        return []
+    return [x.get("uid") if isinstance(x, dict) else None for x in refs]
